@@ -136,6 +136,11 @@ def run(chk: common.Check):
     pre = ("From Coq Require Import String List ZArith QArith.\nFrom V Require Import Params ParamsQuery Cfg_gen.\n"
            "Import ListNotations.\nOpen Scope string_scope.\n")
     files = [("shipped", cfg_lines, names0)]
+    # a matrix row name stated a second time with its original number of entries, followed by further rows
+    for k_, restated in enumerate(("COO", "HIS")):
+        files.append((f"gen-restated-row{k_}", ["interaction_matrix COO I", "interaction_matrix HIS N I", "interaction_matrix CYS N I N",
+                                                  "interaction_matrix COO -" if restated == "COO" else "interaction_matrix HIS I -",
+                                                  "interaction_matrix ARG I N - N", "sidechain_cutoffs default 3.0 4.0"], ["COO", "HIS", "CYS", "ARG"]))
     nfiles = 400 if chk.thorough else 80
     for i in range(nfiles):
         ls, names = gen_file(rng)
